@@ -525,6 +525,13 @@ def run_history(spec, hist, policy="insert_then_get"):
                 rw = ref.cancel_nth(op[1])
                 rr = real.cancel_nth(op[1])
                 w.pump()
+            elif op[0] == "burst":
+                # several operations within one loop iteration: the loop does not run between them
+                rw, rr = [], []
+                for sub in op[1]:
+                    rw.append(ref.apply(sub))
+                    rr.append(real.apply(sub))
+                w.pump()
             else:
                 rw = ref.apply(op)
                 rr = real.apply(op)
@@ -590,3 +597,36 @@ def bfs(spec, ops, first_ops, depth, st, policies=("insert_then_get",), sig_pref
                 for op in ops:
                     nxt.append(hist + (op,))
         frontier = nxt
+
+
+def burst_family(spec, prefix_ops, sync_ops, maxlen, st, policies=("insert_then_get",), sig_prefix="", part=None):
+    """Every history [one optional prefix operation] + [one burst of 2..maxlen operations from sync_ops executed in
+    the same loop iteration]; compared with the reference after the loop has run."""
+    import itertools
+    from mc.core import h
+    k = 0
+    for pre in [()] + [(op,) for op in prefix_ops]:
+        for n in range(2, maxlen + 1):
+            for seq in itertools.product(sync_ops, repeat=n):
+                k += 1
+                if part is not None and k % part[1] != part[0]:
+                    continue
+                hist = pre + (("burst", seq),)
+                st.ev()
+                st.transitions += n + len(pre)
+                res = last = None
+                for pol in policies:
+                    try:
+                        res = run_history(spec, hist, pol)
+                        break
+                    except Mismatch as m:
+                        last = m
+                if res is None:
+                    sig = "%s%s:burst:%s" % (sig_prefix, spec[0], last.what.split(" ")[0])
+                    st.violation(sig, "%r history %r (the burst runs within one loop iteration): %s" % (spec, list(hist), last),
+                                 {"spec": spec, "hist": [list(o) if o[0] != "burst" else ["burst", [list(x) for x in o[1]]] for o in hist]})
+                    continue
+                key = h((spec, "burst", res[0]))
+                st.states.add(key)
+                st.nontriv(key)
+                st.outcome(repr(res[0][0])[:80])
